@@ -294,8 +294,12 @@ class MetadataBase(object):
         # only when they get serialized and a failure must not truncate the file
         parser = self._get_parser()
         self.serialize(parser)
+        # build the whole text first as well: payload tables are stored as given
+        # and may hold values the file format cannot represent
+        io = six.StringIO()
+        self.build_file(parser, io)
         with open_file_obj(f, "w") as f:
-            self.build_file(parser, f)
+            f.write(io.getvalue())
 
     def dumps(self):
         """
